@@ -122,6 +122,8 @@ def shard_main(argv):
     a5file = os.path.realpath(a5.__file__)
     if not a5file.startswith(root + os.sep):
         raise SystemExit('a5 imported from %s, not from %s' % (a5file, root))
+    from . import hostile
+    hostile.install(a5)
     ctx = Recorder(spec['seed'], spec['shard'])
     ctx.tier = spec['tier']
     ctx.shard_spec = spec
@@ -144,6 +146,8 @@ def shard_main(argv):
     wall = time.time() - t0
     if led:
         led.stop()
+    if hostile.COUNTS['results_edited']:
+        ctx.count('results_edited_by_hostile_caller', hostile.COUNTS['results_edited'])
     from . import probe
     res = {
         'counters': ctx.counters, 'evaluations': ctx.evaluations, 'failures': jsonable(ctx.failures),
@@ -344,6 +348,9 @@ def replay_main(path):
     os.environ.setdefault('PYTHONHASHSEED', '0')
     sys.path.insert(0, repo_root())
     mod = importlib.import_module('rv.checks.' + prop.lower())
+    import a5
+    from . import hostile
+    hostile.install(a5)
     ctx = Recorder(d.get('seed', 1), 'replay')
     ctx.tier = d.get('tier', 'quick')
     f = d['failure']
